@@ -192,6 +192,9 @@ def run_pair(mon, base, idx, old, new, sh, locked=False):
                 bad = list(old[: len(old) // 2]) + [("build", "override", b"BAD/NAME", b"x"), ("launch", "append", b"ALSO/BAD", b"y"), ("process:web", "default", b"P/Q", b"z")]
                 rep0 = mon.call({"op": "write", "dir": hx(d), "entries": enc_entries(bad)})
                 sh.count("refused_writes_in_between", 1 if "err" in rep0 else 0)
+                if "err" not in rep0 and not (check_tree(d, bad, "after a write with names that contain '/', which reported success,", case, sh)
+                                              and check_readback(mon, d, bad, case, sh, "after a write with names that contain '/', which reported success,")):
+                    return
                 case["refused_write_in_between"] = True
             if locked and step == "new":
                 for root in ENV_ROOTS:
